@@ -36,15 +36,17 @@ CHECKS.update({
             'diffed; monitor: implementation dump = specification collect.', '§6 C05', ''),
     'C14': ('Lean theorems C14.* (resolution order = scope chain, find_fqn/find_any = filter specifications, '
             'sublist/each once, validity of every NamespaceIds handed out, lossless notations); tie: real '
-            'find_fqn/find_any/scope_resolution_order/namespaceids_t on FileContents obtained through the real parser.',
+            'find_fqn/find_any/scope_resolution_order/namespaceids_t on FileContents obtained through the real parser; '
+            'FindResult.has_one_instance / get_single_instance with every type hint (C14Single: a declaration is handed out iff it is '
+            'the only one on the scope chain and of the hinted kind, every failure is FindError, test and getter agree).',
             '§6 C14', ''),
     'C15': ('Lean theorems C15.no_internal (for every JSON value only the two documented errors) and '
             'C15.out_event_refused over a model that carries Python failure modes; tie: mutation stream '
-            '(delete/retype/retag) + arbitrary roots, outcome class compared.', '§6 C15',
+            '(delete/retype/retag) + arbitrary roots + skipped elements (unknown <class>) with every field retyped in turn, outcome class compared.', '§6 C15',
             'Interpreter stack depth is not modelled (documents up to the loader limit of ~509 nested namespaces are exercised).'),
     'C16': ('Lean theorem C16.history_free over the parser-object state machine (any history of new/load/process on '
-            'any instances) + instances_isolated; tie: random histories against the real class, results re-dumped at '
-            'the end to catch retroactive mutation.', '§6 C16', ''),
+            'any instances) + instances_isolated; tie: random histories against the real class (incl. long-lived instances '
+            'serving hundreds of mostly refused documents), results re-dumped at the end to catch retroactive mutation.', '§6 C16', ''),
 })
 
 PROG_NOTE = ('Program-level: the Dezyne C++ runtime and the Dezyne-generated model header are mocked (harness/cxx, '
@@ -55,7 +57,7 @@ CHECKS.update({
     'C02': ("Lean theorems C02.* incl. build-level corollaries (build_mts_in_event_in_dispatcher: through dzn::shell once, observed with disp=1, reply after the dispatcher ran; build_mts_requires_out_queued: returns at once, closure owns copies, dispatcher runs it; build_sts_port_bypasses_dispatcher: no constructor assignment touches an STS port, the call runs the component's handler directly), dangling captures flagged, accessor types, partition; tie: routing table from the implementation text (by-value capture lists), compiled programs (dispatch flag, posted/shell counters, identity, static_assert of accessor types), text-level capture-list monitor on exotic extern types.",
             '§0, §6 C02', PROG_NOTE),
     'C04': ("Lean theorems C04.*: the generated per-client wrappers EXECUTED over whole histories (history_refines: after any sequence of claims/releases by any number of registered clients the slots are unchanged, nothing is pending and the selector is the abstract machine's state; history_delivery: an out-event is observed by exactly the selected client or by nobody; history_holder: = the specification's holder when nobody releases a foreign claim; build_mc_wired / build_history_holder: the same for the shell Builder.build generates for every accepted model and configuration with any registered clients), frame_invoke_drain (calls never rebind events), refinement/soundness of the abstract machine, names from configuration, cfg errors, worked shell (mc_wired, mc_example) + proved witness of finding D-9; tie: routing table incl. per-client wrappers from the implementation text, compiled multi-client programs on random claim/release/out histories.",
-            '§0, §6 C04', PROG_NOTE + ' Partial while D-9 is recorded.'),
+            '§0, §6 C04', PROG_NOTE + ' Partial while D-9 is recorded. The wrapped mock component can react (raise an out-event while it handles an in-event); Sem.invokeR models it (conservative: SemReact.invokeR_nil) and C04.release_reaction_reaches_holder proves that such an out-event raised during the holder\'s release reaches the holder before it is deselected.'),
     'C06': ('PARTIAL. Lean theorems C06.* on the generator model and the translated include tables (eight files, support file names, include closure of support headers and of the shell header, named scope for non-global encapsulees, proved witness of D-8); structural clauses (incl. every m_ member the source uses is declared, every declared function defined once with matching signature) evaluated in Lean on the real file sets; full-text correspondence with the model; compiler acceptance only sampled (g++: headers alone/twice, two prefixes, shell used from a second TU and linked, verbatim files).',
             '§0, §6 C06', 'Compiler acceptance is not provable in the model; seven recorded findings (known_findings.json).'),
     'C07': ('Monitor: specification lookup (unique member of the scope chain, of the right kind) decides accessor and lambda '
@@ -85,8 +87,9 @@ CHECKS.update({
             'side through PortsCfg.match and a through-build stream (injected ports, uncovered ports).', '§6 C03', ''),
     'C20': ('PARTIAL. Lean theorems C20.* (declaration = definition + default, declaration/definition shapes, definition '
             'ignores prefix/override/defaults/explicit, no definition when initialised, balanced namespace/struct blocks); '
-            'tie: random descriptors through the real cpp_gen classes; a signature reader evaluates the clauses on the '
-            'rendered text.', '§6 C20', 'Compiler acceptance of arbitrary compositions is not expressible in the model.'),
+            'tie: random descriptors through the real cpp_gen classes (defaults with significant whitespace, contents blocks with a '
+            'header, blocks built without contents and extended through the getter); a signature reader evaluates the clauses on the '
+            'rendered text, incl. that the declaration carries exactly the described default values.', '§6 C20', 'Compiler acceptance of arbitrary compositions is not expressible in the model.'),
 })
 
 NOT_YET = {}
